@@ -378,6 +378,35 @@ mod not_wasm_scheduler {
     }
   }
 
+  #[cfg(feature = "verif_hooks")]
+  mod verif_scheduler {
+    use super::*;
+    use std::sync::Arc;
+
+    /// A scheduler whose spawn function is supplied by a verification harness
+    /// (same delay / remote-handle path as the real pools).
+    #[derive(Clone)]
+    pub struct VerifSpawner(
+      pub Arc<dyn Fn(BoxFuture<'static, ()>) + Send + Sync>,
+    );
+
+    macro_rules! verif_spawn {
+      ($pool: ident, $future: ident) => {
+        ($pool.0)(Box::pin($future))
+      };
+    }
+
+    impl<T> Scheduler<T> for VerifSpawner
+    where
+      T: Future + Send + 'static,
+      T::Output: TaskReturn + Send + 'static,
+    {
+      impl_scheduler_method!(verif_spawn);
+    }
+  }
+  #[cfg(feature = "verif_hooks")]
+  pub use verif_scheduler::VerifSpawner;
+
   #[cfg(feature = "tokio-scheduler")]
   mod tokio_scheduler {
     use super::*;
@@ -397,6 +426,9 @@ mod not_wasm_scheduler {
     }
   }
 }
+
+#[cfg(all(feature = "verif_hooks", not(target_arch = "wasm32")))]
+pub use not_wasm_scheduler::VerifSpawner;
 
 #[cfg(all(test, not(target_arch = "wasm32"), feature = "tokio-scheduler"))]
 mod test {
